@@ -27,8 +27,8 @@ Definition stop_prank (p : prank) : prank := {| active := NO_PRANK; keep := fals
 
 Definition mem_addr (a : Z) (l : list Z) : bool := existsb (Z.eqb a) l.
 
-(* Prank.lookup(to):
-     if self and to not in [halmos_cheat_code.address, hevm_cheat_code.address]:
+(* Prank.lookup(to)   (the list is regenerated from the source: Gen.prank_exempt):
+     if self and to not in [halmos_cheat_code.address, hevm_cheat_code.address, console.address]:
          result = self.active
          if not self.keep: self.stopPrank()
          return result
@@ -109,5 +109,3 @@ Fixpoint m_run (st : list mframe) (ops : list op) : list obs :=
 (* the ops whose callee is an ordinary account *)
 Definition target_ok (o : op) : Prop :=
   match o with OCall _ a => ~ In a cheatcode_addresses | _ => True end.
-Definition not_console (o : op) : Prop :=
-  match o with OCheat CConsole => False | _ => True end.
